@@ -26,7 +26,10 @@ RULE = ("histories = 1-2 batch_run calls (sometimes the very same call twice) on
         "and 0-3 times inside every step with model-level and agent-level changes between the collects of one step (every agent "
         "removed / one created / the first removed / every agent removed at the final step), with/without agent reporters, with "
         "agent churn; three streams per run: 260 random cases, a 120-case slice of the targeted sweep (collect patterns x stop x "
-        "max_steps x period; churn between collects; all pairs of parameter shapes), 40 cases of churn between collects; 4 (quick) / "
+        "max_steps x period; churn between collects; all pairs of parameter shapes), 40 cases of churn between collects, 40 cases of "
+        "explicit collection patterns (gaps and duplicates), 6 SCALE cases (max_steps 255/256/257/258/300/512/1000 with periods 1, 2, 7, 50, "
+        "64, 100, 128, 256, 257, 300, -1 and early stops at 256..512 on tiny models; designs of 200-600 runs; scalar parameters as numpy "
+        "scalars and bools); 4 (quick) / "
         "40 (thorough) calls with number_processes 2-3 run in a helper process and compared with the serial call and row by row "
         "with their run; the multiset of rows is observed; non-trivial = at least 2 rows; distinct = by SHA1")
 TRUSTED_BASE = [
@@ -483,11 +486,11 @@ def run_impl(case):
                     specific = True
                     fail("C13/batch_run/row-parameters", i, f"row {r} of run {run_id} does not repeat its parameters {kw} / iteration {it}")
                 lab = r.get("Step")
-                if ("Steps" in r and r["Steps"] != lab) or ("sv" in r and r["sv"] // 1000 != lab):
+                if ("Steps" in r and r["Steps"] != lab) or ("sv" in r and r["sv"] - r.get("val", 0) != 1000 * lab):
                     specific = True
                     fail("C13/batch_run/row-mixes-collections", i,
                          f"run {run_id} {kw} max_steps={max_steps} period={period}: row {r} is labelled Step {lab} but its model-level "
-                         f"value was collected at step {r.get('Steps')} and its agent-level value at step {r['sv'] // 1000 if 'sv' in r else None}")
+                         f"value was collected at step {r.get('Steps')} and its agent-level value at step {(r['sv'] - r.get('val', 0)) // 1000 if 'sv' in r else None}")
             log = inst.log if inst is not None else hand.log
             for r in mine:
                 # the row must be ONE collection of the model: same step, same model-level values, and its agent in it
